@@ -11,7 +11,7 @@ RULE = ("random cgroup trees (depth <= 4, branching <= 4; thorough 6 / 6) with w
 
 
 def gen(rng, tier):
-    return _kill.gen(rng, tier, PROP, [("base", 77), ("zero", 15), ("meta", 8)] if tier != "search" else [("base", 50), ("zero", 10), ("meta", 40)])
+    return _kill.gen(rng, tier, PROP, [("base", 69), ("zero", 15), ("meta", 8), ("swap", 8)] if tier != "search" else [("base", 40), ("zero", 10), ("meta", 30), ("swap", 20)])
 
 
 def nontrivial(s, t, v):
